@@ -446,6 +446,9 @@ pub struct World {
     /// heap snapshot taken by `check()` BEFORE its read-only queries (upgrade / is_dropped ...): the state's identity must not
     /// depend on side effects those queries may have in a defective library (they only run on the last step of a replay)
     pub snap_cache: RefCell<Option<gc_arena::verif::HeapSnap>>,
+    /// objects that were undestructed and strongly unreachable when the running cycle woke, and have stayed unreachable since
+    pub wake_garbage: Vec<u8>,
+    pub wake_known: bool,
     pub incoming: Option<H>,
     pub lent_out: Option<*const H>,
     // ---- per-cycle bookkeeping for C07 ----
@@ -510,6 +513,8 @@ impl World {
             hs: [None, None, None],
             lent: [None, None, None],
             snap_cache: RefCell::new(None),
+            wake_garbage: vec![],
+            wake_known: false,
             incoming: None,
             lent_out: None,
             mutated: false,
@@ -963,6 +968,13 @@ impl World {
             v.push(self.cycle_prot.len() as u8);
             for r in &self.cycle_prot {
                 v.push(p(Some(*r)));
+            }
+        }
+        if self.sc.exact_cycle {
+            v.push(self.wake_known as u8);
+            v.push(self.wake_garbage.len() as u8);
+            for g in &self.wake_garbage {
+                v.push(p(Some(*g)));
             }
         }
         if self.sc.born_canon {
